@@ -293,6 +293,245 @@ def malformed(rng, classes, obj, abs_items, passed):
     return "empty_component", obj, [[key, rand_leaf(rng)]] + [[k, c] for k, c in passed if k != key][:2], None
 
 
+# --------------------------------------------------------------------------------------------------
+# replace_subgroups stream: families with subgroup / Optional / Union / nested members, all fields defaulted
+
+
+def gen_sub_schema(rng):
+    """{"leaves": {name: [[fname, pyrepr]]}, "frozen": {...}, "conts": {name: [[fname, kind, extra]]}} ; root is the last container."""
+    leaves = {}
+    for i in range(rng.choice([2, 3])):
+        fs = [[rng.choice(["x", "lr", "w"]), rng.choice([0, 1, 5])]]
+        if rng.random() < 0.5:
+            fs.append([rng.choice(["s", "name"]), rng.choice(["a", "bob"])])
+        leaves[f"L{i}"] = fs
+    frozen = {"Z0": [["a", 1], ["b", "bob"]]}
+    conts = {}
+    n_cont = rng.choice([1, 2, 2, 3])
+    for i in range(n_cont):
+        name = f"M{i}"
+        fields = []
+        nf = rng.choice([2, 3, 4, 5]) if i == n_cont - 1 else rng.choice([1, 2, 3])
+        used = set()
+        for _ in range(nf):
+            fn = rng.choice([n for n in ["sub", "ab", "fz", "opt", "un", "nest", "k", "z", "model", "d_2"] if n not in used])
+            used.add(fn)
+            kinds = ["subg", "subg", "subgf", "opt", "union", "int"]
+            if i > 0:
+                kinds += ["nest", "nest", "nest"]
+            if rng.random() < 0.06:
+                kinds = ["noninit"]
+            kind = rng.choice(kinds)
+            ls = sorted(leaves)
+            if kind == "subg":
+                a, b = rng.sample(ls, 2)
+                table = [[a.lower(), "cls", a], [b.lower(), "cls", b]]
+                if rng.random() < 0.4:
+                    table.append([a.lower() + "p", "partial", a])
+                dflt = rng.choice(["factory", "key"])
+                fields.append([fn, kind, {"table": table, "default": dflt}])
+            elif kind == "subgf":
+                fields.append([fn, kind, None])
+            elif kind == "opt":
+                fields.append([fn, kind, rng.choice(ls)])
+            elif kind == "union":
+                fields.append([fn, kind, rng.sample(ls, 2)])
+            elif kind == "nest":
+                fields.append([fn, kind, f"M{rng.randrange(i)}"])
+            elif kind == "int":
+                fields.append([fn, kind, rng.choice([3, 5])])
+            else:
+                fields.append([fn, kind, 3])
+        conts[name] = fields
+    return {"leaves": leaves, "frozen": frozen, "conts": conts}
+
+
+def sub_source(sc):
+    out = ["import dataclasses, functools", "from dataclasses import dataclass, field", "from typing import Optional, Union",
+           "from simple_parsing import subgroups", ""]
+    for name, fs in sc["leaves"].items():
+        out += ["@dataclass", f"class {name}:"] + [f"    {fn}: {type(v).__name__} = {v!r}" for fn, v in fs] + [""]
+    for name, fs in sc["frozen"].items():
+        out += ["@dataclass(frozen=True)", f"class {name}:"] + [f"    {fn}: {type(v).__name__} = {v!r}" for fn, v in fs] + [""]
+    out += ["z_odd = Z0(1, 'odd')", "z_even = Z0(2, 'even')", ""]
+    for name, fs in sc["conts"].items():
+        out += ["@dataclass", f"class {name}:"]
+        for fn, kind, extra in fs:
+            if kind == "subg":
+                ents = []
+                for key, how, cls in extra["table"]:
+                    ents.append(f"{key!r}: {cls}" if how == "cls" else f"{key!r}: functools.partial({cls}, {_first_field(sc, cls)}=7)")
+                members = sorted({cls for _k, _h, cls in extra["table"]})
+                d = f"default_factory={extra['table'][0][2]}" if extra["default"] == "factory" else f"default={extra['table'][1][0]!r}"
+                out.append(f"    {fn}: Union[{', '.join(members)}] = subgroups({{{', '.join(ents)}}}, {d})")
+            elif kind == "subgf":
+                out.append(f"    {fn}: Z0 = subgroups({{'odd': z_odd, 'even': z_even}}, default=z_odd)")
+            elif kind == "opt":
+                out.append(f"    {fn}: Optional[{extra}] = None")
+            elif kind == "union":
+                out.append(f"    {fn}: Union[{extra[0]}, {extra[1]}] = field(default_factory={extra[0]})")
+            elif kind == "nest":
+                out.append(f"    {fn}: {extra} = field(default_factory={extra})")
+            elif kind == "int":
+                out.append(f"    {fn}: int = {extra}")
+            else:
+                out.append(f"    {fn}: int = field(default={extra}, init=False)")
+        out.append("")
+    return "\n".join(out)
+
+
+def _first_field(sc, cls):
+    return sc["leaves"][cls][0][0]
+
+
+def sub_members(sc, kind, extra):
+    """classes a field of that kind may hold."""
+    if kind == "subg":
+        return sorted({c for _k, _h, c in extra["table"]})
+    if kind == "subgf":
+        return ["Z0"]
+    if kind == "opt":
+        return [extra]
+    if kind == "union":
+        return list(extra)
+    if kind == "nest":
+        return [extra]
+    return []
+
+
+def sub_instance(rng, sc, cls, p_default=0.5):
+    """an instance node of class cls; leaves take non-default values with probability 1-p_default."""
+    if cls in sc["leaves"] or cls in sc["frozen"]:
+        fs = (sc["leaves"].get(cls) or sc["frozen"].get(cls))
+        out = []
+        for fn, v in fs:
+            nv = v if rng.random() < p_default else (v + rng.choice([10, 20]) if isinstance(v, int) else v + rng.choice(["!", "2"]))
+            out.append([fn, True, leaf(nv), None])
+        return {"k": "dc", "cls": cls, "fields": out}
+    out = []
+    for fn, kind, extra in sc["conts"][cls]:
+        if kind == "int":
+            out.append([fn, True, leaf(extra if rng.random() < p_default else extra + 10), None])
+        elif kind == "noninit":
+            out.append([fn, False, leaf(extra), leaf(extra)])
+        elif kind == "opt":
+            out.append([fn, True, leaf(None) if rng.random() < 0.4 else sub_instance(rng, sc, extra, p_default), None])
+        else:
+            out.append([fn, True, sub_instance(rng, sc, rng.choice(sub_members(sc, kind, extra)), p_default), None])
+    return {"k": "dc", "cls": cls, "fields": out}
+
+
+def sub_pick(rng, sc, kind, extra, p_bad):
+    """-> (choice, class of the resulting member or None)"""
+    members = sub_members(sc, kind, extra)
+    r = rng.random()
+    if r < p_bad:
+        return rng.choice([{"c": "key", "k": "nokey"}, {"c": "other", "py": "3"}, {"c": "other", "py": "int"}]), None
+    if kind == "subg":
+        if r < 0.75:
+            key, _how, cls = rng.choice(extra["table"])
+            return {"c": "key", "k": key}, cls
+        if r < 0.88:
+            cls = rng.choice(sorted(sc["leaves"]))
+            return {"c": "type", "cls": cls}, cls
+        if r < 0.96:
+            cls = rng.choice(members)
+            return {"c": "inst", "node": sub_instance(rng, sc, cls, 0.3)}, cls
+        return {"c": "none"}, None
+    if kind == "subgf":
+        if r < 0.85:
+            return {"c": "key", "k": rng.choice(["odd", "even"])}, "Z0"
+        return {"c": "type", "cls": "Z0"}, "Z0"
+    if r < 0.25:
+        return {"c": "none"}, (None if kind == "opt" else members[0])
+    cls = rng.choice(members if rng.random() < 0.85 else sorted(sc["leaves"]))
+    if r < 0.7:
+        return {"c": "type", "cls": cls}, cls
+    return {"c": "inst", "node": sub_instance(rng, sc, cls, 0.3)}, cls
+
+
+def sub_selections(rng, sc, cls, cur, prefix, p_sel, p_bad, p_childonly, depth=0):
+    """abstract selections (shallowest first) below a member of class `cls`; `cur` = its current instance node or None when the
+    member has just been replaced by a default instance."""
+    out = []
+    if cls not in sc["conts"]:
+        if rng.random() < p_bad:
+            out.append([prefix + [rng.choice(["zz", "x"])], {"c": "key", "k": "a"}])
+        return out
+    curf = {fn: v for fn, _i, v, _d in cur["fields"]} if cur is not None else {}
+    for fn, kind, extra in sc["conts"][cls]:
+        if kind in ("int", "noninit"):
+            if rng.random() < p_bad:
+                out.append([prefix + [fn], {"c": "key", "k": "a"}])
+            continue
+        r = rng.random()
+        if r < p_sel:
+            ch, mcls = sub_pick(rng, sc, kind, extra, p_bad)
+            out.append([prefix + [fn], ch])
+            if mcls is not None and depth < 3 and rng.random() < 0.6:
+                out += sub_selections(rng, sc, mcls, None, prefix + [fn], p_sel + 0.2, p_bad, 0.0, depth + 1)
+        elif r < p_sel + p_childonly and curf.get(fn, {}).get("k") == "dc" and depth < 3:
+            out += sub_selections(rng, sc, curf[fn]["cls"], curf[fn], prefix + [fn], 0.7, p_bad, p_childonly, depth + 1)
+    if rng.random() < p_bad:
+        out.append([prefix + [rng.choice(["zz", "nope"])], {"c": "key", "k": "a"}])
+    return out
+
+
+def choice_sel(ch):
+    return {"key": lambda: {"s": "key", "k": ch["k"]}, "type": lambda: {"s": "type", "cls": ch["cls"]},
+            "inst": lambda: {"s": "inst", "node": ch["node"]}, "none": lambda: {"s": "none"},
+            "other": lambda: {"s": "other", "py": ch.get("py", "3")}}[ch["c"]]()
+
+
+def render_sel(rng, sels, p_flat):
+    """abstract [(path, choice)] -> the selections dict items actually passed (flat dotted keys / nested dicts with __key__)."""
+    tops = []
+    for p, _c in sels:
+        if p[0] not in tops:
+            tops.append(p[0])
+    items = []
+    for t in tops:
+        own = [c for p, c in sels if p == [t]]
+        deeper = [[p[1:], c] for p, c in sels if p[0] == t and len(p) > 1]
+        if not deeper:
+            items.append([t, choice_sel(own[0])])
+        elif rng.random() < p_flat:
+            sub = render_sel(rng, deeper, p_flat)
+            part = [[t + "." + k, v] for k, v in sub]
+            if own:
+                part.insert(rng.randrange(len(part) + 1), [t, choice_sel(own[0])])
+            items += part
+        else:
+            sub = render_sel(rng, deeper, p_flat)
+            if own:
+                sub.insert(rng.randrange(len(sub) + 1), ["__key__", choice_sel(own[0])])
+            items.append([t, {"s": "dict", "items": sub}])
+    return items
+
+
+def gen_sub(rng, n_schema, per):
+    cases = []
+    for _ in range(n_schema):
+        sc = gen_sub_schema(rng)
+        src = sub_source(sc)
+        root = sorted(sc["conts"])[-1]
+        for j in range(per):
+            obj = sub_instance(rng, sc, root, rng.choice([0.2, 0.5, 1.0]))
+            p_bad = 0.0 if rng.random() < 0.75 else 0.15
+            if j == 0:
+                sels = []
+            else:
+                sels = sub_selections(rng, sc, root, obj, [], rng.choice([0.3, 0.6]), p_bad, rng.choice([0.0, 0.0, 0.3]))
+                for _retry in range(3):
+                    if sels:
+                        break
+                    sels = sub_selections(rng, sc, root, obj, [], 0.8, p_bad, 0.2)
+            passed = render_sel(rng, sels, rng.choice([0.0, 0.5, 1.0]))
+            sel = passed if (sels or rng.random() < 0.5) else None
+            cases.append(dict(kind="sub", src=src, obj=obj, sel=sel, abs=sels, malformed=None))
+    return cases
+
+
 def gen(tier, seed):
     rng = random.Random(f"C18-{seed}")
     n_schema = 150 if tier == "quick" else 1800
@@ -330,6 +569,9 @@ def gen(tier, seed):
             else:
                 cd, kw = None, []
             cases.append(dict(src=src, obj=obj, cd=cd, kw=kw, abs=abs_items, malformed=None))
+    for c in cases:
+        c["kind"] = "rep"
+    cases += gen_sub(rng, 60 if tier == "quick" else 700, 12)
     return cases
 
 
@@ -416,6 +658,9 @@ def run_impl(cases):
 
     out = []
     for case in cases:
+        if case.get("kind") == "sub":
+            out.append(run_sub(case))
+            continue
         ns = _namespace(case["src"])
         obj = build(case["obj"], ns)
         before = copy.deepcopy(obj)
@@ -450,6 +695,102 @@ def run_impl(cases):
                         input_unchanged=unchanged, changes_unchanged=changes_unchanged, before=before_node, gen_ok=gen_ok,
                         unflat=unflat, flat=flat, ref=ref))
     return out
+
+
+
+def build_sel(snode, ns):
+    k = snode["s"]
+    if k == "key":
+        return snode["k"]
+    if k == "type":
+        return ns[snode["cls"]]
+    if k == "inst":
+        return build(snode["node"], ns)
+    if k == "none":
+        return None
+    if k == "other":
+        return int if snode.get("py") == "int" else 3
+    return {key: build_sel(v, ns) for key, v in snode["items"]}
+
+
+def canon_sel(v):
+    import dataclasses
+    import inspect
+
+    if isinstance(v, str):
+        return {"s": "key", "k": v}
+    if v is None:
+        return {"s": "none"}
+    if inspect.isclass(v) and dataclasses.is_dataclass(v):
+        return {"s": "type", "cls": v.__name__}
+    if dataclasses.is_dataclass(v):
+        return {"s": "inst", "node": canon_node(v)}
+    if type(v) is dict:
+        return {"s": "dict", "items": [[k, canon_sel(x)] for k, x in v.items()]}
+    return {"s": "other"}
+
+
+_TABLE_CACHE = {}
+
+
+def observe_tables(src, ns):
+    """static facts the model of replace_subgroups takes as inputs, read off the real classes with the real helpers."""
+    import dataclasses
+
+    from simple_parsing.annotation_utils.get_field_annotations import get_field_type_from_annotations
+    from simple_parsing.utils import contains_dataclass_type_arg, is_dataclass_instance, is_optional
+
+    if src in _TABLE_CACHE:
+        return _TABLE_CACHE[src]
+    meta, classes = [], []
+    for name, cls in ns.items():
+        if not (isinstance(cls, type) and dataclasses.is_dataclass(cls)):
+            continue
+        try:
+            classes.append([name, canon_node(cls())])
+        except Exception:  # noqa: BLE001
+            pass
+        for f in dataclasses.fields(cls):
+            ann = get_field_type_from_annotations(cls, f.name)
+            table = []
+            for k, v in (f.metadata.get("subgroups") or {}).items():
+                table.append([k, canon_node(v if is_dataclass_instance(v) else v())])
+            factory = None
+            if f.default_factory is not dataclasses.MISSING:
+                factory = canon_node(f.default_factory())
+            meta.append([name, f.name, bool(contains_dataclass_type_arg(ann)), bool(is_optional(ann)), table, factory])
+    if len(_TABLE_CACHE) > 64:
+        _TABLE_CACHE.clear()
+    _TABLE_CACHE[src] = {"meta": meta, "classes": classes}
+    return _TABLE_CACHE[src]
+
+
+def run_sub(case):
+    import copy
+
+    from implutil import outcome_of
+    import simple_parsing
+    from simple_parsing.replace import _unflatten_selection_dict
+
+    ns = _namespace(case["src"])
+    tables = observe_tables(case["src"], ns)
+    obj = build(case["obj"], ns)
+    before = copy.deepcopy(obj)
+    before_node = canon_node(before)
+    mk = (lambda: None) if case["sel"] is None else (lambda: {k: build_sel(v, ns) for k, v in case["sel"]})
+    sel = mk()
+    r = outcome_of(lambda: simple_parsing.replace_subgroups(obj, sel))
+    after_node = canon_node(obj)
+    unchanged = after_node == before_node
+    try:
+        unchanged = unchanged and bool(obj == before)
+    except Exception:  # noqa: BLE001
+        unchanged = False
+    sel_unchanged = canon_sel(sel) == canon_sel(mk()) if sel is not None else True
+    unflat = canon_sel(_unflatten_selection_dict(mk(), "__key__", recursive=False))["items"] if case["sel"] is not None else []
+    return dict(obs=_oc(r), msg=(r[2] if r[0] == "raise" else ""), same_type=r[0] == "ok" and type(r[1]) is type(obj),
+                is_new=r[0] == "ok" and r[1] is not obj, input_unchanged=unchanged, changes_unchanged=sel_unchanged,
+                before=before_node, gen_ok=before_node == case["obj"], unflat=unflat, tables=tables)
 
 
 # --------------------------------------------------------------------------------------------------
@@ -535,6 +876,130 @@ def frame_reason(o, abs_items, obs):
     return None
 
 
+
+# ---- replace_subgroups: Python mirror of expected_sub / sub_check ----
+
+
+def _set_path(o, p, m):
+    if not p:
+        return m
+    if o is None or o["k"] != "dc":
+        return None
+    out = []
+    hit = False
+    for fn, init, v, d in o["fields"]:
+        if fn == p[0] and not hit:
+            hit = True
+            if not init:
+                return None
+            nv = _set_path(v, p[1:], m)
+            if nv is None:
+                return None
+            out.append([fn, init, nv, d])
+        else:
+            out.append([fn, init, v, d])
+    return {"k": "dc", "cls": o["cls"], "fields": out} if hit else None
+
+
+def _member_of(tables, cls, name, ch):
+    for c, n, has_dc, optional, table, factory in tables["meta"]:
+        if c == cls and n == name:
+            if not has_dc:
+                return None
+            if ch["c"] == "key":
+                return dict((k, v) for k, v in table).get(ch["k"])
+            if ch["c"] == "type":
+                return dict((k, v) for k, v in tables["classes"]).get(ch["cls"])
+            if ch["c"] == "inst":
+                return ch["node"]
+            if ch["c"] == "none":
+                if table:
+                    return None
+                return leaf(None) if optional else factory
+            return None
+    return None
+
+
+def expected_sub(tables, sels, o):
+    for p, ch in sels:
+        parent = get(o, p[:-1])
+        if parent is None or parent["k"] != "dc" or _child(parent, p[-1]) is None:
+            return None
+        m = _member_of(tables, parent["cls"], p[-1], ch)
+        if m is None:
+            return None
+        o = _set_path(o, p, m)
+        if o is None:
+            return None
+    return o
+
+
+def _diff_paths(a, b, pre=()):
+    if a == b:
+        return []
+    if a is None or b is None or a["k"] != "dc" or b["k"] != "dc" or a["cls"] != b["cls"] \
+            or [f[0] for f in a["fields"]] != [f[0] for f in b["fields"]]:
+        return [list(pre)]
+    out = []
+    for fa, fb in zip(a["fields"], b["fields"]):
+        out += _diff_paths(fa[2], fb[2], pre + (fa[0],))
+    return out
+
+
+def _has_noninit(tables_or_node, node):
+    return any(not init or _has_noninit(None, v) for _fn, init, v, _d in node["fields"]) if node["k"] == "dc" else False
+
+
+def _sub_violation(case, obs):
+    if not obs["gen_ok"]:
+        return "harness-bug", "the built instance does not canonicalise to the generated tree"
+    if not obs["input_unchanged"]:
+        return "sub-input-mutated", "the object passed to replace_subgroups() differs from its deep copy taken before the call"
+    if case["abs"] is None:
+        return None
+    sels = case["abs"]
+    selected = [p for p, _c in sels]
+    childonly = [p for p in selected if len(p) > 1 and p[:-1] not in selected]
+    exp = expected_sub(obs["tables"], sels, case["obj"])
+    o = obs["obs"]
+    if exp is None:
+        if o[0] != "raise":
+            return "sub-not-raised:" + _why_invalid(obs["tables"], sels, case["obj"]), \
+                f"a selection that names no member was not rejected ({o[0]})"
+        return None
+    if o[0] != "ok":
+        why = "other"
+        if o[1] == "ValueError" and "non-init" in obs["msg"]:
+            why = "noninit-field-in-class"
+        elif o[1] == "AssertionError" and childonly:
+            why = "child-only-selection-on-subgroup-field"
+        return f"sub-raised:{o[1]}:{why}", f"valid selections {selected} raised {o[1]}: {obs['msg'][:120]}"
+    if o[1] != exp:
+        diffs = _diff_paths(exp, o[1])
+        outside = [d for d in diffs if not any(d[:len(p)] == p for p in selected)]
+        if outside:
+            why = "child-only-selection-resets-member" if any(d[:len(p) - 1] == p[:-1] for d in outside for p in childonly) else "other"
+            return f"sub-other-changed:{why}", f"unselected {'.'.join(outside[0])} changed: expected {get(exp, outside[0])}, observed {get(o[1], outside[0])}"
+        return "sub-member-wrong", f"selected member at {'.'.join(diffs[0])}: expected {get(exp, diffs[0])}, observed {get(o[1], diffs[0])}"
+    return None
+
+
+def _why_invalid(tables, sels, o):
+    for p, ch in sels:
+        parent = get(o, p[:-1])
+        if parent is None or parent["k"] != "dc":
+            return "below-non-dataclass"
+        if not any(fn == p[-1] for fn, _i, _v, _d in parent["fields"]):
+            return "unknown-selection-ignored"
+        if _child(parent, p[-1]) is None:
+            return "noninit-field-selected"
+        m = _member_of(tables, parent["cls"], p[-1], ch)
+        if m is None:
+            return "choice-names-no-member:" + ch["c"]
+        o = _set_path(o, p, m)
+    return "other"
+
+
 def _res_agree(a, b):
     if a[0] == "ok" and b[0] == "ok":
         return a[1] == b[1]
@@ -542,6 +1007,8 @@ def _res_agree(a, b):
 
 
 def _violation(case, obs):
+    if case.get("kind") == "sub":
+        return _sub_violation(case, obs)
     if not obs["gen_ok"]:
         return "harness-bug", "the built instance does not canonicalise to the generated tree"
     if not obs["input_unchanged"]:
@@ -563,21 +1030,43 @@ def py_spec(case, obs):
     return None if v is None else f"{v[0]}: {v[1]}"[:600]
 
 
+def _sel_has_dots(items):
+    return any("." in k or (v["s"] == "dict" and _sel_has_dots(v["items"])) for k, v in items)
+
+
 def _form(case):
+    if case.get("kind") == "sub":
+        if not case["sel"]:
+            return "sub-empty"
+        nested = any(v["s"] == "dict" for _k, v in case["sel"])
+        return "sub-" + ("nested" if nested else "flat") + ("+dotted" if _sel_has_dots(case["sel"]) else "")
     passed = case["cd"] if case["cd"] else case["kw"]
     return ("dict" if case["cd"] else ("kw" if case["kw"] else "none")) + ("+dotted" if has_dots(passed or []) else "")
 
 
 def signature(case, obs, reason):
     v = _violation(case, obs)
+    if case.get("kind") == "sub":
+        return (v[0] if v else "sub-coq-spec")
     return f"{v[0] if v else 'coq-spec'}:{_form(case)}:{obs['obs'][0]}"
 
 
 def nontrivial(case, obs):
+    if case.get("kind") == "sub":
+        return bool(case["abs"])
     return bool(case["abs"]) or case["malformed"] is not None
 
 
 def features(case, obs):
+    if case.get("kind") == "sub":
+        sels = case["abs"] or []
+        selected = [p for p, _c in sels]
+        return {"form": _form(case), "sub_n_selected": min(len(sels), 6), "sub_max_path": max([len(p) for p in selected] + [0]),
+                "sub_choices": "+".join(sorted({c["c"] for _p, c in sels})) or "none",
+                "sub_child_only": any(len(p) > 1 and p[:-1] not in selected for p in selected),
+                "outcome": "sub:" + obs["obs"][0] + (":" + obs["obs"][1] if obs["obs"][0] == "raise" else ""),
+                "sub_valid": expected_sub(obs["tables"], sels, case["obj"]) is not None,
+                "selections_mutated": not obs["changes_unchanged"]}
     o = case["obj"]
     A = assigns(dnode(case["abs"]), o) if case["abs"] is not None else []
     frozen = "n/a"
@@ -624,17 +1113,72 @@ def _cres(o, f):
     return outcome(["ok", f(o[1])] if o[0] == "ok" else o)
 
 
+
+def csel(sn):
+    k = sn["s"]
+    if k == "key":
+        return f"(SKey {cstr(sn['k'])})"
+    if k == "type":
+        return f"(SType {cstr(sn['cls'])})"
+    if k == "inst":
+        return f"(SInst {cval(sn['node'])})"
+    if k == "none":
+        return "SNone"
+    if k == "other":
+        return "SOther"
+    return f"(SDict {csdict(sn['items'])})"
+
+
+def csdict(items):
+    return clist([cpair(cstr(k), csel(v)) for k, v in items])
+
+
+def cchoice(ch):
+    return {"key": lambda: f"(CKey {cstr(ch['k'])})", "type": lambda: f"(CType {cstr(ch['cls'])})",
+            "inst": lambda: f"(CInst {cval(ch['node'])})", "none": lambda: "CNone", "other": lambda: "(CKey \"\")"}[ch["c"]]()
+
+
+def ctables(t):
+    metas = []
+    for c, n, has_dc, optional, table, factory in t["meta"]:
+        fm = (f"(mkfmeta {cbool(has_dc)} {cbool(optional)} {cdict(table)} "
+              f"{'None' if factory is None else '(Some ' + cval(factory) + ')'})")
+        metas.append(f"({cstr(c)}, {cstr(n)}, {fm})")
+    return f"(mktables {clist(metas)} {cdict(t['classes'])})"
+
+
+def to_coq_sub(case, obs):
+    sel = "None" if case["sel"] is None else f"(Some {csdict(case['sel'])})"
+    ab = "None" if case["abs"] is None else \
+        "(Some " + clist([cpair(clist([cstr(x) for x in p]), cchoice(c)) for p, c in case["abs"]]) + ")"
+    return (f"CSub (mkscase {ctables(obs['tables'])} {cval(obs['before'])} {sel} {ab} {_cres(obs['obs'], cval)} "
+            f"{cbool(obs['input_unchanged'])} {csdict(obs['unflat'])})")
+
+
 def to_coq(case, obs):
+    if case.get("kind") == "sub":
+        return to_coq_sub(case, obs)
     cd = "None" if case["cd"] is None else f"(Some {cdict(case['cd'])})"
     ab = "None" if case["abs"] is None else f"(Some {cdict(case['abs'])})"
     flat = "None" if obs["flat"] is None else f"(Some {cdict(obs['flat']['items'])})"
     ref = "None" if obs["ref"] is None else f"(Some {_cres(obs['ref'], cval)})"
-    return (f"mkcase {cval(obs['before'])} {cd} {cdict(case['kw'])} {ab} {_cres(obs['obs'], cval)} "
+    return (f"CRep (mkcase {cval(obs['before'])} {cd} {cdict(case['kw'])} {ab} {_cres(obs['obs'], cval)} "
             f"{cbool(obs['same_type'])} {cbool(obs['input_unchanged'])} "
-            f"{_cres(obs['unflat'], lambda n: cdict(n['items']))} {flat} {ref}")
+            f"{_cres(obs['unflat'], lambda n: cdict(n['items']))} {flat} {ref})")
 
 
 def shrink(case):
+    if case.get("kind") == "sub":
+        sels = case["abs"] or []
+        for i in range(len(sels)):
+            p = sels[i][0]
+            keep = [[q, c] for j, (q, c) in enumerate(sels) if j != i and q[:len(p)] != p]
+            if len(keep) < len(sels):
+                c2 = dict(case)
+                c2["abs"] = keep
+                c2["sel"] = render_sel(random.Random(0), keep, 1.0)
+                yield c2
+        return
     if case["abs"] is None:
         for which in ("cd", "kw"):
             items = case[which] or []
